@@ -243,9 +243,24 @@ fn run_history(ops: &[Op]) -> String {
     let mut ctx = sdk_context();
     let mut names = Names(vec![]);
     let mut outs: Vec<String> = vec![];
+    let mut custom_keys: Vec<String> = vec![];
     let vars_before = ctx.variables.len();
     let mut expected_vars = vars_before;
     for (k, op) in ops.iter().enumerate() {
+        if op.cmd == "__foreignlist" {
+            // the embedder stores an array in the handle table under a key of its own choosing
+            let key = match op.args.get(0) { Some(Arg::Lit(t)) => t.clone(), _ => "inventory".to_string() };
+            if handles(&ctx).is_none() {
+                ctx.state.insert("handles".to_string(), StateValue::SubState(HashMap::new()));
+            }
+            let list = ["apple", "pear", "plum"].iter().map(|s| StateValue::String(s.to_string())).collect();
+            handles_mut(&mut ctx).unwrap().insert(key.clone(), StateValue::List(list));
+            custom_keys.push(key.clone());
+            outs.push(enc_str(&key));
+            ctx.variables.insert(format!("o{}", k), key);
+            expected_vars += 1;
+            continue;
+        }
         if op.cmd == "__foreign" {
             // the embedder stores a non-collection value under a fresh handle key
             let tag: usize = match op.args.get(0) { Some(Arg::Lit(t)) => t.parse().unwrap_or(0), _ => 0 };
@@ -313,7 +328,7 @@ fn run_history(ops: &[Op]) -> String {
         Some(h) => h
             .iter()
             .map(|(k, v)| {
-                let key = if names.0.contains(k) { names.rename(k) } else { format!("LEAKED-HANDLE:{}", enc_value(v, &names)) };
+                let key = if names.0.contains(k) { names.rename(k) } else if custom_keys.contains(k) { k.clone() } else { format!("LEAKED-HANDLE:{}", enc_value(v, &names)) };
                 format!("{}={}", enc_str(&key), enc_value(v, &names))
             })
             .collect(),
@@ -888,6 +903,20 @@ fn confusion_cases() -> Vec<Case> {
             // … and a second time (the first call must have put the value back)
             ops.push(Op { cmd: c.to_string(), args: a });
             out.push(Case { req: enc_ops(&ops), in_domain: true, nontrivial: true, tags: vec!["command-x-foreign-kind"] });
+        }
+    }
+    // every command on an array the embedder stored under a key of its own (no `handle:` prefix)
+    for (c, extra) in &cmds {
+        for key in ["inventory", "my list"] {
+            let mut ops = vec![Op { cmd: "__foreignlist".into(), args: vec![lit(key)] }];
+            let mut a = vec![Arg::Ref(0)];
+            a.extend(extra.iter().cloned());
+            if *c == "array_contains" || *c == "set_contains" || *c == "map_contains_value" {
+                a = vec![Arg::Ref(0), lit("pear")];
+            }
+            ops.push(Op { cmd: c.to_string(), args: a });
+            ops.push(Op { cmd: "array_length".into(), args: vec![Arg::Ref(0)] });
+            out.push(Case { req: enc_ops(&ops), in_domain: true, nontrivial: true, tags: vec!["command-x-embedder-key"] });
         }
     }
     // recursive release of a foreign-kind handle, directly and below a collection
